@@ -161,6 +161,27 @@ fn mk_classing(cl: &Cl) -> Classing {
     Classing::new(&v, default, policy)
 }
 
+fn parse_cl(s: &str) -> Cl {
+    if s == "-" {
+        return vec![];
+    }
+    s.split(',')
+        .map(|e| {
+            let (c, n) = e.split_once(':').expect("classing id:count");
+            (c.parse().expect("class id"), n.parse().expect("slot count"))
+        })
+        .collect()
+}
+
+/// Directed re-run of one configuration (`--only-frames n [--only-cl c] [--only-offset hex] [--only-z z]`)
+#[derive(Default, Clone)]
+struct Only {
+    frames: Option<usize>,
+    cl: Option<Cl>,
+    offset: Option<usize>,
+    z: Option<usize>,
+}
+
 fn stats_str(s: &Stats) -> String {
     format!("{},{},{}", s.free_frames, s.free_huge, s.free_trees)
 }
@@ -216,7 +237,7 @@ impl Ranges {
 
 /// operations that touch every kind of metadata word; avoids request shapes that hit the known
 /// upper-level panics (targeted get with a slot, slots next to slot-less classes)
-fn probe_ops(alloc: &LLFree, frames: usize, cl: &Cl) {
+fn probe_ops(alloc: &LLFree, frames: usize, cl: &Cl, full: bool) {
     let all_slots = !cl.is_empty() && cl.iter().all(|&(_, n)| n > 0);
     let classes: Vec<(u8, usize)> = cl.clone();
     let cls0 = classes.first().map(|c| c.0).unwrap_or(0);
@@ -233,7 +254,9 @@ fn probe_ops(alloc: &LLFree, frames: usize, cl: &Cl) {
     alloc.drain();
     // every frame at order 0, then free everything
     let mut held = Vec::new();
-    for _ in 0..frames {
+    // (only in the full probe; otherwise one frame per row)
+    let limit = if full { frames } else { 0 };
+    for _ in 0..limit {
         match alloc.get(None, Request::new(0, Class(cls0), None)) {
             Ok((f, _)) => held.push(f),
             Err(_) => break,
@@ -243,6 +266,18 @@ fn probe_ops(alloc: &LLFree, frames: usize, cl: &Cl) {
     let _ = alloc.tree_stats();
     for f in held.drain(..) {
         let _ = alloc.put(f, Request::new(0, Class(cls0), None));
+    }
+    if !full {
+        // one targeted frame per row: touches every row, entry and tree
+        let rq = Request::new(0, Class(cls0), None);
+        for f in (0..frames).step_by(64) {
+            if alloc.get(Some(FrameId(f)), rq).is_ok() {
+                held.push(FrameId(f));
+            }
+        }
+        for f in held.drain(..) {
+            let _ = alloc.put(f, rq);
+        }
     }
     // every order: untargeted, then targeted at the last aligned block (narrow CAS for 3..6)
     for order in 0..=TREE_ORDER {
@@ -276,9 +311,15 @@ fn probe_ops(alloc: &LLFree, frames: usize, cl: &Cl) {
     alloc.drain();
 }
 
-fn suite_meta(w: &mut dyn Write, rng: &mut Rng, scale: usize) {
-    let counts = frame_counts(rng, 6 * scale);
-    let cls = classings();
+fn suite_meta(w: &mut dyn Write, rng: &mut Rng, scale: usize, only: &Only) {
+    let mut counts = frame_counts(rng, 6 * scale);
+    let mut cls = classings();
+    if let Some(f) = only.frames {
+        counts = vec![f];
+        if let Some(c) = &only.cl {
+            cls = vec![c.clone()];
+        }
+    }
     // sizes for the whole sweep
     for &frames in &counts {
         for cl in &cls {
@@ -289,6 +330,9 @@ fn suite_meta(w: &mut dyn Write, rng: &mut Rng, scale: usize) {
     }
     // a few very large counts (sizes only)
     for frames in [1usize << 30, (1usize << 30) + 1, (1usize << 40) - 1, usize::MAX / 2 / FRAME_SIZE] {
+        if only.frames.is_some() {
+            break;
+        }
         let c = mk_classing(&cls[3]);
         let ms = LLFree::metadata_size(&c, frames);
         writeln!(w, "MS {frames} {} {} {} {}", cl_name(&cls[3]), ms.local, ms.trees, ms.lower).unwrap();
@@ -296,6 +340,9 @@ fn suite_meta(w: &mut dyn Write, rng: &mut Rng, scale: usize) {
     // probing: every frame count with two classings (rotating), exact-size guarded buffers
     for (k, &frames) in counts.iter().enumerate() {
         for j in 0..2 {
+            if j >= cls.len() {
+                break;
+            }
             let cl = &cls[(k * 2 + j * 3 + 1) % cls.len()];
             let name = cl_name(cl);
             let c = mk_classing(cl);
@@ -319,7 +366,8 @@ fn suite_meta(w: &mut dyn Write, rng: &mut Rng, scale: usize) {
                         let st = alloc.stats();
                         writeln!(w, "MN {frames} {name} {iname} ok {} {}", alloc.frames(), st.free_frames).unwrap();
                         if init == Init::FreeAll || init == Init::Recover {
-                            match guarded(|| probe_ops(&alloc, frames, cl)) {
+                            let full = init == Init::FreeAll && (frames <= 4 * TREE_FRAMES + 1 || (j == 0 && scale > 1));
+                            match guarded(|| probe_ops(&alloc, frames, cl, full)) {
                                 Ok(()) => writeln!(w, "MO {frames} {name} {iname} ok").unwrap(),
                                 Err(p) => writeln!(w, "MO {frames} {name} {iname} panic {p}").unwrap(),
                             }
@@ -363,13 +411,13 @@ fn suite_meta(w: &mut dyn Write, rng: &mut Rng, scale: usize) {
 }
 
 // ------------------------------------------------------------------------------------------ valid suite
-fn suite_valid(w: &mut dyn Write, rng: &mut Rng, scale: usize) {
+fn suite_valid(w: &mut dyn Write, rng: &mut Rng, scale: usize, only: &Only) {
     const ARENA: usize = 1 << 20;
     let layout = Layout::from_size_align(ARENA, 4096).unwrap();
     let arena = unsafe { alloc_zeroed(layout) };
     assert!(!arena.is_null());
     let a0 = arena as usize;
-    let configs: Vec<(usize, Cl)> = vec![
+    let mut configs: Vec<(usize, Cl)> = vec![
         (1, vec![(0, 1)]),
         (TREE_FRAMES + 1, vec![(0, 2), (1, 2)]),
         (3 * TREE_FRAMES, vec![(0, 1), (1, 1), (2, 1)]),
@@ -379,6 +427,9 @@ fn suite_valid(w: &mut dyn Write, rng: &mut Rng, scale: usize) {
         (0, vec![(0, 1)]),                    // empty trees and lower buffers
         (0, vec![(0, 0)]),                    // all three empty
     ];
+    if let Some(f) = only.frames {
+        configs = vec![(f, only.cl.clone().unwrap_or_else(|| vec![(0, 1)]))];
+    }
     let case = |w: &mut dyn Write, frames: usize, cl: &Cl, b: [(usize, usize); 3], tag: &str| {
         for (a, l) in b {
             assert!(a >= a0 && a + l <= a0 + ARENA, "case outside the arena");
@@ -542,7 +593,7 @@ fn simple_req(order: usize, core: usize) -> Request {
     Request::new(order, Class((order >= HUGE_ORDER) as u8), Some(core % 2))
 }
 
-fn suite_zone(w: &mut dyn Write, rng: &mut Rng, scale: usize) {
+fn suite_zone(w: &mut dyn Write, rng: &mut Rng, scale: usize, only: &Only) {
     let cl: Cl = vec![(0, 2), (1, 2)];
     let c = mk_classing(&cl);
     let tf = TREE_FRAMES;
@@ -556,6 +607,15 @@ fn suite_zone(w: &mut dyn Write, rng: &mut Rng, scale: usize) {
                 continue;
             }
             id += 1;
+            let (offset, frames) = match (only.offset, only.frames) {
+                (Some(o), Some(f)) => {
+                    if id > 1 {
+                        return;
+                    }
+                    (o, f)
+                }
+                _ => (offset, frames),
+            };
             let ms = LLFree::metadata_size(&c, frames);
             let zb = (Buf::new(ms.local), Buf::new(ms.trees), Buf::new(ms.lower));
             let tb = (Buf::new(ms.local), Buf::new(ms.trees), Buf::new(ms.lower));
@@ -582,7 +642,9 @@ fn suite_zone(w: &mut dyn Write, rng: &mut Rng, scale: usize) {
             let nops = if overflow { 40 } else { 150 * scale };
             for _ in 0..nops {
                 let zs0 = stats_str(&zone.stats());
-                let pick = rng.below(100);
+                // a zone whose frame numbers are not all representable (offset + frames > usize::MAX): only
+                // untargeted gets and calls below the offset, so that zone and twin stay in step
+                let pick = if overflow { [0, 0, 0, 55][rng.below(4) as usize] } else { rng.below(100) };
                 let order = *rng.pick(&[0usize, 0, 0, 1, 2, 3, 4, 6, 7, HUGE_ORDER, HUGE_ORDER, TREE_ORDER]);
                 let core = rng.below(2) as usize;
                 let line;
@@ -798,7 +860,7 @@ fn nvm_create(
     }
 }
 
-fn suite_nvm(w: &mut dyn Write, rng: &mut Rng, scale: usize) {
+fn suite_nvm(w: &mut dyn Write, rng: &mut Rng, scale: usize, only: &Only) {
     let cl: Cl = vec![(0, 2), (1, 2)];
     let c: &'static Classing = Box::leak(Box::new(mk_classing(&cl)));
     let tf = TREE_FRAMES;
@@ -811,6 +873,10 @@ fn suite_nvm(w: &mut dyn Write, rng: &mut Rng, scale: usize) {
             zs.push(t * tf + k);
         }
         zs.push((t + 1) * tf);
+    }
+    if let Some(z) = only.z {
+        assert!(z <= 4 * tf, "--only-z: at most 4 trees");
+        zs = vec![z, z, z];
     }
     let mut id = 0usize;
     for (zi, &z) in zs.iter().enumerate() {
@@ -933,21 +999,27 @@ fn main() {
     let mut w = out(args.get("out"));
     install_hook();
     writeln!(w, "G {} {} {}", HUGE_ORDER, TREE_HUGE.ilog2(), FRAME_SIZE).unwrap();
+    let only = Only {
+        frames: args.get("only-frames").map(|s| s.parse().expect("only-frames")),
+        cl: args.get("only-cl").map(parse_cl),
+        offset: args.get("only-offset").map(|s| usize::from_str_radix(s, 16).expect("only-offset (hex)")),
+        z: args.get("only-z").map(|s| s.parse().expect("only-z")),
+    };
     let mut rng = Rng::new(seed);
     if suite == "meta" || suite == "all" {
-        suite_meta(&mut *w, &mut rng.clone(), scale);
+        suite_meta(&mut *w, &mut rng.clone(), scale, &only);
     }
     if suite == "valid" || suite == "all" {
         rng.next();
-        suite_valid(&mut *w, &mut rng.clone(), scale);
+        suite_valid(&mut *w, &mut rng.clone(), scale, &only);
     }
     if suite == "zone" || suite == "all" {
         rng.next();
-        suite_zone(&mut *w, &mut rng.clone(), scale);
+        suite_zone(&mut *w, &mut rng.clone(), scale, &only);
     }
     if suite == "nvm" || suite == "all" {
         rng.next();
-        suite_nvm(&mut *w, &mut rng.clone(), scale);
+        suite_nvm(&mut *w, &mut rng.clone(), scale, &only);
     }
     w.flush().unwrap();
 }
